@@ -645,3 +645,15 @@ func (s *Sched) TaskLabel(t *Task) string {
 	}
 	return t.label
 }
+
+// HasBackgroundAncestor reports whether t, or one of its ancestors below
+// scope, is a goroutine the system started as a long-lived worker (its entry
+// function is a Start method's closure or task.Start).
+func HasBackgroundAncestor(t, scope *Task) bool {
+	for x := t; x != nil && x != scope; x = x.parent {
+		if x.auto && (strings.Contains(x.entry, "task.Start") || strings.Contains(x.entry, ").Start.func") || strings.Contains(x.entry, "Loop")) {
+			return true
+		}
+	}
+	return false
+}
